@@ -34,6 +34,8 @@ R4 (K5 taint) for every class registered in request_handlers (each lazy registra
 Added while testing against seeded changes: R1c jail_info is threading.local(); R3b VfsRequest.translate_client_path
 re-validates the decoded path as a whole and segment by segment (a segment that decodes to '/', '.' or '..' is
 refused).
+R3c SmartServerRequest.translate_client_path returns the client path untranslated (no root client path) only after the
+per-segment decode-and-refuse check.
 R6 every function of controldir.py that probes with ControlDirFormat.find_format runs the pre_open hooks (the jail) first.
 R7 the userdir path filter is BzrServerFactory._expand_userdirs itself and no URL-decode happens in it or around it
 (third-round seeds).
@@ -290,6 +292,25 @@ def run(ctx):
     ctx.require(total_sinks >= 30, f"only {total_sinks} sinks found (hand-confirmed: about 40)")
 
 
+    # ---- R3c: a client path that is handed on untranslated is still checked segment by segment ------------------------
+    # SmartServerRequest.translate_client_path returns the client path as it is when there is no root client path (WSGI
+    # application whose HTTP path covers the root): that return is preceded on every path by the decode-and-refuse loop
+    # (a call of urlutils.unescape with a raise of InvalidURLJoin behind it).
+    ftc = repo.func(RQ, "SmartServerRequest.translate_client_path")
+    wtc = f"{RQ}:SmartServerRequest.translate_client_path"
+    from ..cfg import build_cfg as _bcfg2
+
+    gtc = _bcfg2(ftc)
+    p0 = [a.arg for a in ftc.args.args if a.arg != "self"][0]
+    raw_rets = [n.id for n in gtc.nodes if n.kind == "stmt" and isinstance(n.ast, ast.Return) and n.ast.value is not None and norm(n.ast.value) == p0]
+    chk_loops = [l_ for l_ in ast.walk(ftc) if isinstance(l_, ast.For) and any(isinstance(c, ast.Call) and norm(c.func).endswith("unescape") for c in ast.walk(l_)) and any(isinstance(r, ast.Raise) and "InvalidURLJoin" in norm(r) for r in ast.walk(l_))]
+    dec = [n.id for n in gtc.nodes if n.kind == "for" and any(n.ast is l_ for l_ in chk_loops)]
+    refuses = bool(chk_loops)
+    if raw_rets:
+        okc = bool(dec) and refuses and all(gtc.always_before(dec, [r])[0] for r in raw_rets)
+        ctx.check("R3c-untranslated-path-checked", wtc, okc, "the untranslated client path is returned only after the per-segment decode-and-refuse check", message="translate_client_path returns the client path untranslated (no root client path: the WSGI application) without checking it segment by segment: `..%2F..%2Foutside` passes the chroot as one name and is decoded by the local transport below it — non-VFS verbs (BzrDir.open, find_repository ...) answer for control directories outside the served directory")
+    else:
+        ctx.info("R3c-untranslated-path-checked", wtc, "translate_client_path never returns the raw client path")
     # ---- R6: the jail hook sees every control directory that is probed -----------------------------------------------
     # The request jail is a ControlDir 'pre_open' hook.  In controldir.py every function that probes a transport for a
     # control directory (a call of ControlDirFormat.find_format, directly or in a nested helper) first runs
@@ -324,6 +345,7 @@ def run(ctx):
 
 
 MUTANTS = [
+    Mutant("untranslated client paths returned unchecked", RQ, "            for segment in client_path.split(\"/\"):\n                name = segment.split(\",\", 1)[0]\n                decoded = urlutils.unescape(name)\n                if decoded != name and (\"/\" in decoded or decoded in (\".\", \"..\")):\n                    raise urlutils.InvalidURLJoin(\n                        \"Encoded path separator\", \"/\", client_path\n                    )\n            return client_path\n", "            return client_path\n", expect="R3c-untranslated-path-checked"),
     Mutant("upward search probes parents without the pre_open hooks", "breezy/controldir.py", "        for hook in klass.hooks[\"pre_open\"]:\n            hook(transport)\n        # Keep initial base", "        # Keep initial base", expect="R6-probe-runs-pre-open-hooks"),
     Mutant("userdir filter decodes the path once more", SV, "        return pathfilter.PathFilteringServer(transport, self._expand_userdirs)\n", "        return pathfilter.PathFilteringServer(transport, lambda p: self._expand_userdirs(urlutils.unescape(p)))\n", expect="R7-userdir-filter-single-decode"),
     Mutant("segments not re-checked after decoding", VF, "        for segment in result.split(\"/\"):\n            decoded = urlutils.unescape(segment)\n            if decoded != segment and (\"/\" in decoded or decoded in (\".\", \"..\")):\n                raise urlutils.InvalidURLJoin(\"Encoded path separator\", \"/\", result)\n", "", expect="R3b-decoded-path-revalidated"),
